@@ -36,6 +36,9 @@ structure Cfg where
   maxActive : Nat := 256
   allTypes : Int := 2147483647
   bufMax : Int := 1048576
+  pTiming : Nat := 900             -- `min_timing_message_period`, `TRAFFIC_INTERVAL`, `INFO_INTERVAL` in milliseconds (read
+  pTraffic : Nat := 1000           -- from the manager object at run time: no property fixes their values)
+  pInfo : Nat := 5000
   logLevel : Nat := 100            -- a log call of level `l` is forwarded iff `l ≥ logLevel`
   timing : Bool := true            -- `send_msg_timing`
   mmPid : Int := 4242
@@ -665,9 +668,9 @@ def ioStep (cfg : Cfg) (s : State) (accept : Bool) (writable : List Nat) (reads 
 
 /-- the periodic messages at the end of every round -/
 def ticks (cfg : Cfg) (s : State) : State :=
-  let s := if cfg.timing && s.now - s.tTiming > 900 then { sendTiming cfg s with tTiming := s.now } else s
-  let s := if s.now - s.tTraffic > 1000 then sendTraffic cfg s else s
-  if s.now - s.tInfo > 5000 then sendActive cfg s else s
+  let s := if cfg.timing && s.now - s.tTiming > cfg.pTiming then { sendTiming cfg s with tTiming := s.now } else s
+  let s := if s.now - s.tTraffic > cfg.pTraffic then sendTraffic cfg s else s
+  if s.now - s.tInfo > cfg.pInfo then sendActive cfg s else s
 
 def step (cfg : Cfg) (s : State) (r : Round) : State :=
   if s.crashed.isSome then s else
